@@ -31,6 +31,8 @@ def _range_end(ex, rng):
 def _kind_ok(tag, kinds):
     if kinds is None:
         return True
+    if 'scalar' in kinds and ':' not in tag and not tag.endswith('*') and tag != 'worker':
+        return True
     return tag.split(':')[0] in kinds
 
 
